@@ -295,3 +295,49 @@ Proof.
   assert (Hcov : covered_outs [] [] []) by (intros o []).
   destruct (nf_loop_nec te funcs items [] [] [] [] fi fo Hcov EL x Hx) as [[]|H]. exact H.
 Qed.
+
+(* ---------- the declarative monitor accepts what netFlows computes ---------- *)
+Lemma nth_opt_split {A} (l : list A) k x : nth_opt k l = Some x -> l = firstn k l ++ x :: skipn (S k) l.
+Proof.
+  revert k. induction l as [|y l IH]; intros k H; destruct k; simpl in *; try discriminate.
+  - injection H as ->. reflexivity.
+  - f_equal. apply IH, H.
+Qed.
+
+Lemma nth_opt_app_mid {A} (pre : list A) x post : nth_opt (length pre) (pre ++ x :: post) = Some x.
+Proof. induction pre as [|y pre IH]; simpl; [reflexivity|exact IH]. Qed.
+
+Lemma firstn_app_exact {A} (pre post : list A) : firstn (length pre) (pre ++ post) = pre.
+Proof. induction pre as [|y pre IH]; simpl; [destruct post; reflexivity|rewrite IH; reflexivity]. Qed.
+
+Lemma in_seq_from k : forall s n, In k (seq_from s n) <-> s <= k < s + n.
+Proof.
+  intros s n. revert s. induction n as [|n IH]; intros s; simpl; [lia|].
+  rewrite IH. lia.
+Qed.
+
+Lemma nth_opt_lt_len {A} (l : list A) k x : nth_opt k l = Some x -> k < length l.
+Proof.
+  revert k. induction l as [|y l IH]; intros k H; destruct k; simpl in *; try discriminate; [lia|].
+  apply IH in H. lia.
+Qed.
+
+Theorem mon_inputs_exact_model te funcs items :
+  mon_inputs_exact te funcs items (fst (net_flows te funcs items)) = true.
+Proof.
+  unfold mon_inputs_exact. apply andb_true_iff. split.
+  - apply forallb_forall. intros k _. destruct (nth_opt k items) as [[ins outs]|] eqn:E; [|reflexivity].
+    apply forallb_forall. intros p Hp.
+    pose proof (nth_opt_split _ _ _ E) as Es.
+    destruct (down_inputs_sufficient te funcs items (firstn k items) ins outs (skipn (S k) items) Es p Hp) as [H|(it & Hit & Hin)].
+    + apply orb_true_iff. left. apply memb_In. exact H.
+    + apply orb_true_iff. right. apply memb_In. unfold outs_before. apply in_flat_map. exists it. split; assumption.
+  - apply forallb_forall. intros t Ht.
+    destruct (down_inputs_necessary te funcs items t Ht) as (pre & ins & outs & post & p & E & Hp & Hr & Hn).
+    apply existsb_exists. exists (length pre). split.
+    + apply in_seq_from. rewrite E, app_length. simpl. lia.
+    + rewrite E, nth_opt_app_mid. apply existsb_exists. exists p. split; [exact Hp|].
+      rewrite firstn_app_exact. apply andb_true_iff. split; [apply Nat.eqb_eq, Hr|].
+      apply negb_true_iff. destruct (memb t (outs_before (pre ++ (ins, outs) :: post) (length pre))) eqn:Em; [|reflexivity].
+      exfalso. apply memb_In in Em. unfold outs_before in Em. rewrite firstn_app_exact in Em. exact (Hn Em).
+Qed.
